@@ -1734,4 +1734,33 @@ theorem starved_client_never_completes (C : Cfg) (P : HsP) (dc ds : Bytes) (segs
     ¬ (Sys.run C P dc ds l (Sys.init P segs)).bothFinished :=
   C18Hs.starved_client_never_completes C P dc ds segs l hl
 
+/-! ### limited timeouts `T ≥ 0` under virtual time (`chanWorldT`) -/
+
+theorem chanWorldT_clockOk (r : Bool) : ClockOk (chanWorldT r) := C18Hs.chanWorldT_clockOk r
+
+theorem timed_call_is_zero_call {σ : Type} (C : Cfg) (r : Bool) (E : Engine σ) (s : St σ ChanT) (T : Int) (hT : 0 ≤ T) :
+    (∀ n, receiveT C (chanWorld r) E (proj s) n 0 =
+        ((receiveT C (chanWorldT r) E s n T).1, proj (receiveT C (chanWorldT r) E s n T).2) ∧
+      0 ≤ (receiveT C (chanWorldT r) E s n T).2.g.remainingTime ∧
+      (receiveT C (chanWorldT r) E s n T).2.w.clock + (receiveT C (chanWorldT r) E s n T).2.g.remainingTime = s.w.clock + T) ∧
+    (∀ data, sendT C (chanWorld r) E (proj s) data 0 =
+        ((sendT C (chanWorldT r) E s data T).1, proj (sendT C (chanWorldT r) E s data T).2) ∧
+      0 ≤ (sendT C (chanWorldT r) E s data T).2.g.remainingTime ∧
+      (sendT C (chanWorldT r) E s data T).2.w.clock + (sendT C (chanWorldT r) E s data T).2.g.remainingTime = s.w.clock + T) :=
+  C18Hs.timed_call_is_zero_call C r E s T hT
+
+theorem timed_schedule_is_zero_schedule (C : Cfg) (P : HsP) (dc ds : Bytes) (l : List ActT)
+    (hT : ∀ a ∈ l, 0 ≤ a.timeout) (y : SysT) :
+    (SysT.run C P dc ds l y).untimed = Sys.run C P dc ds (l.map ActT.act) y.untimed ∧
+    (SysT.run C P dc ds l y).clock ≤ y.clock + budgetSum l :=
+  C18Hs.timed_schedule_is_zero_schedule C P dc ds l hT y
+
+theorem handshake_completes_any_timeouts (C : Cfg) (hC : 1 < C.stepsMax) (P : HsP) (dc ds : Bytes) (hdc : dc ≠ [])
+    (hds : ds ≠ []) (segs : List Nat) (w : Nat) (l : List ActT) (hok : ∀ a ∈ l, a.act.ok)
+    (hT : ∀ a ∈ l, 0 ≤ a.timeout) (hf : SideFair w (l.map ActT.act)) (j : Nat) (hj : j ≤ l.length) :
+    (SysT.run C P dc ds (l.take j) (SysT.init P segs)).faults = 0 ∧
+    (P.total * w ≤ j → (SysT.run C P dc ds (l.take j) (SysT.init P segs)).bothFinished) ∧
+    (SysT.run C P dc ds (l.take j) (SysT.init P segs)).clock ≤ budgetSum (l.take j) :=
+  C18Hs.handshake_completes_any_timeouts C hC P dc ds hdc hds segs w l hok hT hf j hj
+
 end SockModel.Hs
